@@ -1,4 +1,5 @@
 """C11: parsing is deterministic, re-entrant and independent of build timing."""
+import re
 from collections import Counter
 
 from .. import gen_cmd
@@ -187,6 +188,70 @@ def op_sx(op):
 def hist_sx(c, ops, final):
     return "(hist %s (ops%s) (argv%s))" % (gen_cmd.cmd_sx(c), "".join(" " + op_sx(o) for o in ops),
                                           "".join(" " + hexs(t) for t in final))
+
+
+FLAT_MARK = b"FLATTENMARK:"
+
+
+def hist_sx_flat(c, ops, final):
+    """hist_sx, with `(x-flatten-help)` on the nodes that carry c["flatten"] (carried through the `about` slot)"""
+    saved = []
+
+    def mark(n):
+        if n.get("flatten"):
+            saved.append((n, n.get("about")))
+            n["about"] = FLAT_MARK + (n.get("about") or b"")
+        for s_ in n["subs"]:
+            mark(s_)
+    mark(c)
+    s = hist_sx(c, ops, final)
+    for n, a in saved:
+        n["about"] = a
+    return re.sub(r"\(about x%s([0-9a-f]*)\)" % FLAT_MARK.hex(), lambda m: "(about x%s) (x-flatten-help)" % m.group(1), s)
+
+
+def gen_flatten_cases(rng, n, stats):
+    """flattened help (Command::flatten_help) renders the subtree from the names the tree carries: an earlier parse that
+    entered an intermediate subcommand, but not all of its children, must not change the ancestor's help (seeded change
+    seed3/C11-3 skipped the naming of the subtree of an already named subcommand).  Implementation only: flatten_help is
+    rendering, outside the model"""
+    out = []
+    guard = 0
+    while len(out) < n and guard < 50 * n:
+        guard += 1
+        c = gen_tree(rng, want_subs=True)
+        nodes = list(all_nodes(c))
+        inner = [(p_, nd) for p_, nd in nodes if nd["subs"]]
+        if max(len(p_) for p_, _ in nodes) < 2 or "no_binary_name" in c["settings"]:
+            continue
+        for _, nd in inner:
+            if gen_cmd.chance(rng, 0.8):
+                nd["flatten"] = True
+        c["flatten"] = True
+        if gen_cmd.chance(rng, 0.5) and "disable_help_subcommand" not in c["settings"]:
+            c["settings"].append("disable_help_subcommand")
+        mids = [(p_, nd) for p_, nd in inner if len(p_) >= 1]
+        for _ in range(4):
+            ops = []
+            for _i in range(rng.randrange(1, 4)):
+                r = rng.random()
+                if r < 0.7:
+                    ops.append(("parse", directed_argv(rng, c, mids if mids and gen_cmd.chance(rng, 0.7) else nodes,
+                                                      gen_cmd.pick(rng, ["enter", "enter", "bad", "help", "badpos"]))))
+                elif r < 0.8:
+                    ops.append(("clone",))
+                elif r < 0.9:
+                    ops.append(("usage",))
+                else:
+                    ops.append(("help",))
+            path, _ = gen_cmd.pick(rng, inner)
+            final = [PROG] + path_tokens(rng, path) + [gen_cmd.pick(rng, [b"--help", b"--help", b"-h"])]
+            for o in ops:
+                stats["ops"][o[0]] += 1
+            stats["history_length"][len(ops)] += 1
+            stats["tree_depth"][max(len(p_) for p_, _ in nodes)] += 1
+            out.append(hist_sx_flat(c, ops, final))
+    return out[:n]
 
 
 PROFILES = [
@@ -415,6 +480,35 @@ def nontrivial(case, impl):
 
 
 # ------------------------------------------------------------------------------------------ known finding
+HELP_USAGE_LAZY = re.compile(rb" help \[COMMAND\]\.\.\.(?=\n)")
+
+
+HELP_ARG_LAZY = re.compile(rb"(?m)^ +\[COMMAND\]\.\.\. +Print help for the subcommand\(s\)\n")
+
+
+def flatten_help_shape(case, fin, failure):
+    """C11-flatten-help-subcommand-shape: the flattened usage of an ancestor (Command::flatten_help) prints the usage line
+    of every subcommand's auto-generated `help` subcommand; a subcommand the parser entered earlier carries the lazily
+    built form (an argument: `... help [COMMAND]...`), one that is built for the rendering (clone + build()) the expanded
+    form (subcommands: `... help [COMMAND]`).  Exactly: some node has (x-flatten-help), the only complaint is a message
+    difference (help screen, or the usage part of an error), every kind agrees, and the messages are equal once each usage
+    line ending in ` help [COMMAND]...` is read as ` help [COMMAND]` and the lazily built form's argument line
+    `  [COMMAND]...  Print help for the subcommand(s)` is dropped."""
+    if failure == "diff" or "(x-flatten-help)" not in case:
+        return False
+    if not isinstance(failure, str) or "renders a different message than the fresh one" not in failure:
+        return False
+    kinds = {k: raw_kind(fin[k]) for k in ("reused", "fresh", "fresh2", "cloned", "built", "byval")}
+    if len(set(kinds.values())) != 1 or kinds["fresh"] == "ok":
+        return False
+    msgs = {k: canon_parse(fin[k])[1] for k in ("reused", "fresh", "fresh2", "cloned", "byval")}
+    if any(m is None for m in msgs.values()):
+        return False
+    norm = {k: HELP_ARG_LAZY.sub(b"", HELP_USAGE_LAZY.sub(b" help [COMMAND]", unhex(m))) for k, m in msgs.items()}
+    raw_differs = len({unhex(m) for m in msgs.values()}) > 1
+    return raw_differs and len(set(norm.values())) == 1
+
+
 def classify_known(stream, case, impl, failure):
     """C11-help-tree-after-build: after build() the auto-generated help subcommand carries a copy of the
     subcommand tree, so `help help <sub>...` walks into it (DisplayHelp) where a lazily built command
@@ -427,6 +521,8 @@ def classify_known(stream, case, impl, failure):
         return None
     steps, fin = sp
     ops, argv = case_ops(case)
+    if flatten_help_shape(case, fin, failure):
+        return "C11-flatten-help-subcommand-shape"
     hh = any(argv[i] == b"help" and argv[i + 1] == b"help" for i in range(len(argv) - 2))
     if not hh:
         return None
@@ -452,6 +548,8 @@ def streams(tier, rng):
             "history_parse_outcome": Counter()}
     st_f = {"ops": Counter(), "history_length": Counter(), "tree_depth": Counter(), "outcome": Counter(),
             "history_parse_outcome": Counter()}
+    st_x = {"ops": Counter(), "history_length": Counter(), "tree_depth": Counter(), "outcome": Counter(),
+            "history_parse_outcome": Counter()}
     hist = gen_hist_cases(rng, 1500 if quick else 60000, True, st_h)
     free = gen_hist_cases(rng, 1000 if quick else 40000, False, st_f)
     b2 = []
@@ -462,6 +560,8 @@ def streams(tier, rng):
                describe=st_h),
         Stream("history-free", free, oracle=make_oracle(st_f), area=None, project=project, nontrivial=nontrivial,
                describe=st_f),
+        Stream("history-flatten", gen_flatten_cases(rng, 400 if quick else 12000, st_x), oracle=make_oracle(st_x), area=None,
+               project=project, nontrivial=nontrivial, describe=st_x),
         Stream("build-twice", b2, oracle=build2_oracle, area="reentrancy", project=build2_project,
                nontrivial=lambda c, r: bool(r) and r.startswith("(first")),
     ]
